@@ -405,11 +405,15 @@ def encRaw : List (Nat × List Nat) → Option (List Nat)
     | some a, some b => some (a ++ b)
     | _, _ => none
 
+/-- The optional trailing HEADERS frame. -/
+def trailerRaw {α : Type} (encF : α → List Nat) : Option α → List (Nat × List Nat)
+  | some t => [(frameTypeHeaders, encF t)]
+  | none => []
+
 /-- Raw frames of a message: HEADERS, one DATA frame per chunk of the given chunking, optional trailing HEADERS. -/
 def rawOfMsg {α : Type} (encF : α → List Nat) (fields : α) (chunks : List (List Nat)) (trailer : Option α) :
     List (Nat × List Nat) :=
-  (frameTypeHeaders, encF fields) :: (chunks.map fun c => (frameTypeData, c)) ++
-    (match trailer with | some t => [(frameTypeHeaders, encF t)] | none => [])
+  (frameTypeHeaders, encF fields) :: (chunks.map fun c => (frameTypeData, c)) ++ trailerRaw encF trailer
 
 /-- `encode`. -/
 def encodeMsg {α : Type} (encF : α → List Nat) (fields : α) (chunks : List (List Nat)) (trailer : Option α) :
